@@ -131,6 +131,7 @@ class Ephem(Speaker):
         """Change the frames of all points"""
         for orb in self:
             orb.frame = frame
+        self._reset_interp()
 
     @property
     def form(self):  # pragma: no cover
@@ -142,6 +143,16 @@ class Ephem(Speaker):
         """Change the form of all points"""
         for orb in self:
             orb.form = form
+        self._reset_interp()
+
+    def _reset_interp(self):
+        """The interpolator holds the values of the points as they were when it
+        was built: drop it when they change, keeping its settings
+        """
+        if hasattr(self, "_interp"):
+            self._method = self._interp.method
+            self._order = self._interp.order
+            del self._interp
 
     def interpolate(self, date):
         """Interpolate data at a given date
